@@ -21,7 +21,7 @@ LEVEL = "model_checking"
 RULE = (
     "SEL: chain skeleton m>a>b>c with 0..2 guarded candidates per level (bounded total) and parallel skeleton "
     "m>p(r1{x1,x2}, r2{y1,y2}[, r3]) + out with optional handlers on x1,y1,r1,r2,p,m (targetless / sibling / leaving "
-    "the parallel state); each machine once with one guard name per candidate and once with ONE guard name shared by all candidates (params differ); every guard valuation in {true,false,raise}^n; configurations reached by set-up events; "
+    "the parallel state); each machine once with one guard name per candidate and once with ONE guard name shared by all candidates (params differ); chains also with the second candidate of a level declared under the wildcard key; every guard valuation in {true,false,raise}^n; configurations reached by set-up events; "
     "each case = fresh interpreter + send(E) + can(E); oracle = reference nominator; NOOP: BFS closure of TREE(N) "
     "universal machines with the full event alphabet (active-source, inactive-source and unknown events) per state; "
     "distinct_nontrivial = distinct (machine shape, valuation, configuration) cases + distinct (machine, state, event) "
@@ -68,7 +68,7 @@ def par_specs(regions: int) -> List[Any]:
     return out
 
 
-def build_sel(spec, shared: bool = False):
+def build_sel(spec, shared: bool = False, wild: bool = False):
     """Returns (cfg, candidates) with candidates = list of dict(src, name, guard, target, order).
     shared=True: every candidate uses the SAME guard name 'gshared' and differs only in its params - a candidate must be
     judged by its own guard (name AND params), not by whatever another candidate with that name evaluated to."""
@@ -88,7 +88,13 @@ def build_sel(spec, shared: bool = False):
         ids = ["m", "m.a", "m.a.b", "m.a.b.c"]
         ons = []
         for lvl, n in enumerate(par):
-            ons.append({"E": [cand(ids[lvl], i) for i in range(n)]} if n else {})
+            cs = [cand(ids[lvl], i) for i in range(n)]
+            if wild and n == 2:
+                # the second candidate of the level is declared under the wildcard descriptor: still a candidate for E, after
+                # the exact-key one
+                ons.append({"E": [cs[0]], "*": [cs[1]]})
+            else:
+                ons.append({"E": cs} if n else {})
         cfg = {
             "id": "m", "initial": "a", "on": ons[0],
             "states": {"a": {"initial": "b", "on": ons[1], "states": {
@@ -154,10 +160,12 @@ def leaves_of(conf: List[str]) -> List[str]:
 def run_sel(spec, tier, res, viol):
     for shared in (False, True):
         _run_sel(spec, tier, res, viol, shared)
+    if spec[0] == "chain" and 2 in spec[1]:
+        _run_sel(spec, tier, res, viol, False, wild=True)
 
 
-def _run_sel(spec, tier, res, viol, shared):
-    cfg, cands, setups = build_sel(spec, shared)
+def _run_sel(spec, tier, res, viol, shared, wild=False):
+    cfg, cands, setups = build_sel(spec, shared, wild)
     gnames = [c["guard"] for c in cands]
     setup_sets: List[Tuple[str, ...]] = [()]
     if spec[0] in ("par", "par3"):
@@ -193,7 +201,7 @@ def _run_sel(spec, tier, res, viol, shared):
                     seg = d.rec.since(mark)
                     fired = [e[1][3:] for e in seg if e[0] == "A" and e[1].startswith("tr:")]
                     res["evaluations"] += 1
-                    res["distinct"].append(hash((repr(spec), vals, ss, shared)))
+                    res["distinct"].append(hash((repr(spec), vals, ss, shared, wild)))
                     probs = []
                     if err is not None:
                         probs.append(("exception", repr(err)))
@@ -224,11 +232,11 @@ def _run_sel(spec, tier, res, viol, shared):
                             probs.append(("no-nominee-but-something-ran", f"{[e[:2] for e in seg if e[0] in ('A','TR','EV')]}"))
                     for clause, detail in probs:
                         viol.append(dict(
-                            signature=f"C02|{clause}|{spec[0]}{'|same-guard-name' if shared else ''}",
+                            signature=f"C02|{clause}|{spec[0]}{'|same-guard-name' if shared else ''}{'|exact+wildcard-keys' if wild else ''}",
                             clause=clause,
                             what=f"{engine}: {clause}: {detail}; spec {spec}{' (all candidates share the guard name, params differ)' if shared else ''} valuation {val} setup {ss} configuration {conf}",
                             size=len(gnames) * 10 + len(ss),
-                            replay=dict(kind="sel", spec=spec, engine=engine, vals=list(vals), setup=list(ss), tier=tier, shared=shared),
+                            replay=dict(kind="sel", spec=spec, engine=engine, vals=list(vals), setup=list(ss), tier=tier, shared=shared, wild=wild),
                         ))
                 finally:
                     d.close()
